@@ -13,6 +13,7 @@ import (
 	"time"
 
 	inject "github.com/openebs/jiva/error-inject"
+	"github.com/openebs/jiva/replica"
 	"github.com/openebs/jiva/rpc"
 	jsync "github.com/openebs/jiva/sync"
 	"github.com/openebs/jiva/types"
@@ -65,7 +66,10 @@ type SExec struct {
 	// registrations: evt counts registrations and end-of-step membership scans;
 	// regSeq[n] = evt of node n's latest registration, listedSeq[n] = evt of the
 	// latest scan that found n in the controller's replica list
-	evt                    int
+	evt int
+	// counterTaint: the program changed a replica\'s mode through the operator\'s
+	// set-mode API; the revision counts of the RW replicas need not agree any more
+	counterTaint           bool
 	regSeq                 map[int]int
 	listedSeq              map[int]int
 	AttAck                 map[int]int // node -> len(Acked) when it was (re)attached
@@ -110,6 +114,7 @@ func NewSExec(p SProgram) (*SExec, error) {
 		subBlockWO: map[int]map[int64]bool{}, Frozen: map[int]int{}, regSeq: map[int]int{}, listedSeq: map[int]int{}, AttAck: map[int]int{}, AttLog: map[int]int{}, Labels: map[string]int{}, prevRO: true}
 	for _, n := range st.Nodes {
 		n.StallFor = sRW + 700*time.Millisecond
+		n.SlowFor = sRW * 8 / 5
 	}
 	return x, nil
 }
@@ -651,6 +656,7 @@ func (x *SExec) apply(i int, op SOp) *Fail {
 		return x.doSysRebuild(i, op)
 	case "setmodeseq":
 		// several set-mode requests for one address back to back (no settling in between)
+		x.counterTaint = true
 		n := op.Node % len(st.Nodes)
 		addr := st.Nodes[n].Addr
 		for _, mname := range strings.Split(op.Name, ",") {
@@ -784,6 +790,7 @@ func (x *SExec) apply(i int, op SOp) *Fail {
 		st.Nodes[n].ClearFaults()
 		return f
 	case "setmode":
+		x.counterTaint = true
 		n := op.Node % len(st.Nodes)
 		addr := st.Nodes[n].Addr
 		if op.Str != "" {
@@ -907,6 +914,13 @@ func (x *SExec) doWrite(i int, op SOp) *Fail {
 			}
 		}
 	}
+	// a slow replica applies the call after the controller has given up on it: what
+	// counts is whether the controller kept it (it does not: its deadline is shorter)
+	for _, j := range W {
+		if m := st.Mode(j); outcomeOf(op, j) == SLOW && applied[j] && (m == "" || m == types.ERR) {
+			delete(applied, j)
+		}
+	}
 	// nodes outside W must not have received it
 	for j, nd := range st.Nodes {
 		inW := false
@@ -974,26 +988,29 @@ func (x *SExec) doWrite(i int, op SOp) *Fail {
 				}
 			}
 			x.Acked = append(x.Acked, ackedWrite{Off: off, Len: length, Sum: sum64(data), W: W, A: keys(applied), ARW: arw})
-			if off%Blk != 0 || (off+length)%Blk != 0 {
-				for j := range applied {
-					if modeBefore[j] == types.WO {
-						if x.subBlockWO[j] == nil {
-							x.subBlockWO[j] = map[int64]bool{}
-						}
-						// only the partially covered first and last block are affected
-						if off%Blk != 0 {
-							x.subBlockWO[j][off/Blk] = true
-						}
-						if (off+length)%Blk != 0 {
-							x.subBlockWO[j][(off+length)/Blk] = true
-						}
-					}
-				}
-			}
 			x.Labels["write:acked"]++
 		} else if len(applied) > 0 {
 			for s := off / Sec; s < (off+length)/Sec; s++ {
 				x.Live.Indet[s] = true
+			}
+		}
+		// a write that is not block aligned and that a rebuilding (WO) replica applied -
+		// acknowledged or not - is completed there by read-modify-write against that
+		// replica's own, not yet synced chain (known finding, DESIGN 7.2)
+		if off%Blk != 0 || (off+length)%Blk != 0 {
+			for j := range applied {
+				if modeBefore[j] == types.WO {
+					if x.subBlockWO[j] == nil {
+						x.subBlockWO[j] = map[int64]bool{}
+					}
+					// only the partially covered first and last block are affected
+					if off%Blk != 0 {
+						x.subBlockWO[j][off/Blk] = true
+					}
+					if (off+length)%Blk != 0 {
+						x.subBlockWO[j][(off+length)/Blk] = true
+					}
+				}
 			}
 		}
 	}
@@ -1078,9 +1095,10 @@ func (x *SExec) doRead(i int, op SOp) *Fail {
 				if !e.Applied && e.Outcome == OK && e.Err != "" && !strings.Contains(e.Err, "Volume no longer exist") {
 					return sfail("replica|read|failed-without-fault", fmt.Sprintf("n%d (RW) failed read off=%d len=%d by itself: %s", j, off, length, e.Err), "C01", "C16", "C07")
 				}
-				if e.Applied {
+				if m := st.Mode(j); e.Applied && !(outcomeOf(op, j) == SLOW && rep == 0 && (m == "" || m == types.ERR)) {
 					served = j
 				} else {
+					// (a slow replica answers after the controller has given up on it)
 					x.detach(j)
 					x.Labels["read:failover"]++
 				}
@@ -1308,6 +1326,29 @@ func (x *SExec) verifyState(withModel bool) *Fail {
 	wantRO := nRW < x.P.RF/2+1
 	if vs.ReadOnly != wantRO {
 		return sfail("readonly|stale|after="+after, fmt.Sprintf("ReadOnly=%v with %d RW of RF=%d (%v)", vs.ReadOnly, nRW, x.P.RF, vs.Replicas), "C03")
+	}
+	// --- C10: all RW replicas report the same revision count (a count that ran ahead
+	// or fell behind shows here; a forced mode change by the operator voids it)
+	if withModel && !x.counterTaint {
+		ref, refN := int64(-1), -1
+		for j, nd := range st.Nodes {
+			if x.Mode[j] != types.RW || listed[nd.Addr] != types.RW {
+				continue
+			}
+			rp := func() (r *replica.Replica) {
+				defer func() { recover() }()
+				return nd.S.Replica()
+			}()
+			if rp == nil {
+				continue
+			}
+			cnt := rp.GetRevisionCounter()
+			if ref < 0 {
+				ref, refN = cnt, j
+			} else if cnt != ref {
+				return sfail("counter|rw-replicas-disagree|after="+after, fmt.Sprintf("n%d (RW) reports revision count %d, n%d (RW) reports %d", refN, ref, j, cnt), "C10")
+			}
+		}
 	}
 	// --- C13 checkpoint
 	if vs.Checkpoint != "" {
